@@ -450,30 +450,24 @@ Section GlueRun.
   Qed.
 
   Lemma mix_step_glue D st k chans fracs :
-    Inv D st k ->
-    exists st' r,
+    Inv D st k -> zlen fracs = zlen chans ->
+    exists st' r k',
       step est true g nsamp st (OMix chans fracs) = (st', r) /\
-      ((exists kd, r = RPanic kd /\ check_step c S k (OMix chans fracs) r = Some k) \/
-       (exists k', (forall kd, r <> RPanic kd) /\ check_step c S k (OMix chans fracs) r = Some k' /\ Inv D st' k')).
+      (forall kd, r <> RPanic kd) /\ check_step c S k (OMix chans fracs) r = Some k' /\ Inv D st' k'.
   Proof.
-    intros I. destruct I as [iD ifp iRb imod ipend inext iext iml ikl iks icorr ireal].
-    unfold step. rewrite iml. rewrite mix_valid_same.
+    intros I Hlen. destruct I as [iD ifp iRb imod ipend inext iext iml ikl iks icorr ireal].
+    unfold step. rewrite Hlen, Z.eqb_refl. cbn [negb]. rewrite iml. rewrite mix_valid_same.
     unfold check_step. subst c. cbn [c_g c_nsamp].
     destruct (mix_chans_valid g chans) eqn:Ev.
-    - destruct (zlen fracs <? zlen chans) eqn:El.
-      + rewrite mix_apply_short by lia. eexists _, _. split; [reflexivity|]. left. eexists. split; reflexivity.
-      + destruct (mix_apply_ok (k_last k) chans fracs (d_mix (s_d st)) (k_scale k) ltac:(lia) Ev)
-          as (mx & Hmx & HC).
-        { split; [exact iml|]. split; [exact iks|]. exact icorr. }
-        rewrite Hmx. eexists _, _. split; [reflexivity|]. right. eexists. split; [discriminate|].
-        cbn [Bool.eqb]. split; [reflexivity|].
-        destruct HC as (HCl & HCs & HCw).
-        constructor; cbn [k_D k_R k_fpos k_next k_ext k_last k_scale k_realigned s_pend s_d d_next d_ext d_mix]; auto.
-    - eexists _, _. split; [reflexivity|]. right.
-      destruct (zlen fracs <? zlen chans) eqn:El.
-      + eexists. split; [discriminate|]. split; [reflexivity|].
-        constructor; auto.
-      + eexists. split; [discriminate|]. cbn [Bool.eqb]. split; [reflexivity|]. constructor; auto.
+    - destruct (mix_apply_ok (k_last k) chans fracs (d_mix (s_d st)) (k_scale k) ltac:(lia) Ev)
+        as (mx & Hmx & HC).
+      { split; [exact iml|]. split; [exact iks|]. exact icorr. }
+      rewrite Hmx. eexists _, _, _. split; [reflexivity|]. split; [discriminate|].
+      cbn [Bool.eqb]. split; [reflexivity|].
+      destruct HC as (HCl & HCs & HCw).
+      constructor; cbn [k_D k_R k_fpos k_next k_ext k_last k_scale k_realigned s_pend s_d d_next d_ext d_mix]; auto.
+    - eexists _, _, _. split; [reflexivity|]. split; [discriminate|]. cbn [Bool.eqb]. split; [reflexivity|].
+      constructor; auto.
   Qed.
 
   (* ---------- every history ---------- *)
@@ -486,18 +480,24 @@ Section GlueRun.
     - change (stream_of (OChunk bytes stamp :: rest)) with (bytes ++ stream_of rest) in HS.
       destruct (chunk_step S1 st k bytes stamp (stream_of rest) I HS) as (st' & r & k' & Hs & Hnp & Hck & I').
       rewrite Hs. destruct r as [rels blk|ok|kd]; try (exfalso; eapply Hnp; reflexivity).
-      + cbn [combine check_from]. rewrite Hck. apply (IH (S1 ++ bytes)).
+      + cbn [combine check_from malformed_op]. rewrite Hck. apply (IH (S1 ++ bytes)).
         * rewrite HS. now rewrite app_assoc.
         * rewrite zlen_app. exact I'.
-      + cbn [combine check_from]. rewrite Hck. apply (IH (S1 ++ bytes)).
+      + cbn [combine check_from malformed_op]. rewrite Hck. apply (IH (S1 ++ bytes)).
         * rewrite HS. now rewrite app_assoc.
         * rewrite zlen_app. exact I'.
     - change (stream_of (OMix chans fracs :: rest)) with (stream_of rest) in HS.
-      destruct (mix_step_glue (zlen S1) st k chans fracs I) as (st' & r & Hs & [(kd & -> & Hck)|(k' & Hnp & Hck & I')]).
-      + rewrite Hs. cbn [combine check_from]. rewrite Hck. destruct rest; reflexivity.
-      + rewrite Hs. destruct r as [rels blk|ok|kd]; try (exfalso; eapply Hnp; reflexivity).
-        * cbn [combine check_from]. rewrite Hck. now apply (IH S1).
-        * cbn [combine check_from]. rewrite Hck. now apply (IH S1).
+      destruct (step est true g nsamp st (OMix chans fracs)) as [st0 r0] eqn:Es0.
+      destruct (Z.eq_dec (zlen fracs) (zlen chans)) as [Hlen|Hlen].
+      + destruct (mix_step_glue (zlen S1) st k chans fracs I Hlen) as (st' & r & k' & Hs & Hnp & Hck & I').
+        rewrite Es0 in Hs. inversion Hs; subst st0 r0.
+        assert (Hmal : malformed_op (OMix chans fracs) = false) by (cbn [malformed_op]; rewrite Hlen, Z.eqb_refl; reflexivity).
+        destruct r as [rels blk|ok|kd]; try (exfalso; eapply Hnp; reflexivity).
+        * cbn [combine check_from]. rewrite Hmal, Hck. now apply (IH S1).
+        * cbn [combine check_from]. rewrite Hmal, Hck. now apply (IH S1).
+      + assert (Hmal : malformed_op (OMix chans fracs) = true).
+        { cbn [malformed_op]. destruct (zlen fracs =? zlen chans) eqn:E; [lia | reflexivity]. }
+        destruct r0; cbn [combine check_from]; rewrite Hmal; reflexivity.
   Qed.
 End GlueRun.
 
